@@ -45,6 +45,10 @@ FXKind == Ext(EnumD("A", <<EV("V")>>))
 FEmpty == ObjectD("Z", <<>>, <<>>)
 FIface == ObjectD("Z", <<"N">>, <<FieldD("other", I, <<>>)>>)
 FInOut == InputD("I2", <<ArgD("a", Named("A"))>>)
+\* extensions of a type loaded EARLIER that invalidate types the document itself does not mention:
+\* an interface gains a field its implementors lack; a union gains a member that is no object
+FXIface == Ext(InterfaceD("N", <<FieldD("id", Named("ID"), <<>>)>>))
+FXUnion == Ext(UnionD("U", <<"E">>))
 
 GoodDocs ==
   { <<DQuery, DA, DB, DN>>, <<DU1, DE, DIn>>, <<DMut>>, <<DTag, DDate>>, <<XQuery>>, <<XA>>, <<XE, XU>>, <<XIn>>,
@@ -55,6 +59,7 @@ BadDocs ==
     <<XE, FXNotFound>>, <<XQuery, FEmpty>>, <<DSchemaQ, FUndef>>, <<FDup>>, <<XIn, FXDupField>>, <<XQuery, FXKind>>,
     <<FIface>>, <<XE, FInOut>>, <<DDate, FUndef>>, <<XA, XU, FEmpty>>,
     \* an operation root type in a document refused only by the final validation; one type extended twice before the failure
+    <<FXIface>>, <<DDate, FXIface>>, <<FXUnion>>,
     <<DMut2, FEmpty>>, <<DSub, FInOut>>, <<XQuery, XQuery2, FEmpty>>, <<XE, XE2, FXNotFound>>, <<XIn, XIn2, FXDupField>> }
 G1 == <<DQuery, DA, DB, DN>>
 G2 == <<DU1, DE, DIn>>
